@@ -2,7 +2,7 @@
 import kinds as K
 from common import VERIFY
 
-CRATES = ["ckb_chain", "ckb_verification", "ckb_verification_contextual", "ckb_store"]
+CRATES = ["ckb_chain", "ckb_verification", "ckb_verification_contextual", "ckb_store", "ckb_traits"]
 EXPLANATION = ("MUSTCALL: every sub-verifier is reached on every success path of its composite under Switch::NONE (disable_* assumed false, rfc0044 active); the chain service's "
                "non-contextual step dominates block storage; every attach site in reconcile is behind a successful contextual verification, the disable_all switch or the verified prefix; "
                "REQERR: every rule keeps its rejection site(s); CMP: boundary operators of every limit/ordering rule as truth tables; "
@@ -418,3 +418,40 @@ def run(F, S, R, tier):
         elif not d:
             R.bad("prov/commit-window-diff", "committed-minus-proposed difference not found", [tp.where()])
     R.guard("affine/commit-window", window)
+
+    # past-median time: the greater middle element of the sorted window, the window walks parent links and includes the given block
+    def median():
+        b = F.one("ckb_traits", r"HeaderFieldsProvider::block_median_time$")
+        R.fn(b)
+        idx = [c for c in b.calls_to(r"Index::index$|Index<.*>>::index$")]
+        srt = b.calls_to(r"::sort(_unstable)?$")
+        R.sites += len(idx) + len(srt)
+        if not idx or not srt:
+            R.bad("affine/median", "block_median_time no longer sorts the window and indexes it (median must be sorted[len >> 1])", [b.where()])
+        else:
+            sig = K.arith_of(b, idx[-1].args[1])
+            leaves = [x for x in K.expr_sig(b, idx[-1].args[1]) if x.startswith("leaf:")]
+            if sig == ["lit:1", "op:shr"] and any(x.endswith("::len") for x in leaves) and b.dominates(srt[0].bb, idx[-1].bb):
+                R.ok("affine/median", "past-median time = sorted_timestamps[len >> 1] (greater middle for even windows)", [idx[-1].where()])
+            else:
+                R.bad("affine/median", "median index is %s over %s, expected sorted[len >> 1]" % (sig, leaves), [idx[-1].where()])
+            if not K.src_match(b.operand_sources(idx[-1].args[0]), [r"field:.*HeaderFields\.timestamp"]):
+                R.bad("affine/median/source", "the median is not taken over header timestamps", [idx[-1].where()])
+        # the walk follows parent links starting at the given hash and stops at genesis
+        gh = b.calls_to(r"HeaderFieldsProvider::get_header_fields$")
+        if gh and K.src_match(b.operand_sources(gh[0].args[1]), [r"param:block_hash", r"field:.*HeaderFields\.parent_hash"]):
+            R.ok("prov/median-walk", "the median window starts at the given block and follows parent_hash", [gh[0].where()])
+        else:
+            R.bad("prov/median-walk", "the median window does not walk parent links from the given block", [b.where()])
+        ts = F.one(V, r"header_verifier::TimestampVerifier::<.*>::verify$")
+        c = ts.calls_to(r"block_median_time$")
+        if c and K.src_match(ts.operand_sources(c[0].args[1]), [r"call:.*parent_hash$"]) and K.src_match(ts.operand_sources(c[0].args[2]), [r"field:.*median_block_count"]):
+            R.ok("prov/median-args", "TimestampVerifier takes the median over the parent's window of median_time_block_count blocks", [c[0].where()])
+        else:
+            R.bad("prov/median-args", "TimestampVerifier does not take the median of the parent's window", [ts.where()])
+        hv_ = hv.calls_to(r"TimestampVerifier::<.*>::new$")
+        if hv_ and K.src_match(hv.operand_sources(hv_[0].args[2]), [r"call:.*Consensus::median_time_block_count$"]):
+            R.ok("prov/median-count", "window length is consensus.median_time_block_count()", [hv_[0].where()])
+        else:
+            R.bad("prov/median-count", "window length is not consensus.median_time_block_count()", [hv.where()])
+    R.guard("affine/median", median)
